@@ -391,26 +391,6 @@ def Solvent (s : State) : Prop := ∀ a p d, s.bal (.mOut a p) d ≤ s.bal (.mIn
 theorem Solvent.of_gs {s s' : State} (hs : Solvent s) (h : GhostSame s s') : Solvent s' := by
   intro a p d; rw [(h a p d).1, (h a p d).2]; exact hs a p d
 
-/-- what the observed result of one batch of one pair took in / handed out, quote side and base side -/
-def inQ (m : MatchIn) : Nat :=
-  sumOver (fun f : PoolFlow => if f.buy then f.paid else 0) m.pools + sumOver (fun f : Fill => if f.buy then f.paid else 0) m.fills
-def inB (m : MatchIn) : Nat :=
-  sumOver (fun f : PoolFlow => if f.buy then 0 else f.paid) m.pools + sumOver (fun f : Fill => if f.buy then 0 else f.paid) m.fills
-def outQ (m : MatchIn) : Nat :=
-  sumOver (fun f : Fill => if f.buy then 0 else f.recv) m.fills + sumOver (fun f : PoolFlow => if f.buy then 0 else f.recv) m.pools + m.dust
-def outB (m : MatchIn) : Nat :=
-  sumOver (fun f : Fill => if f.buy then f.recv else 0) m.fills + sumOver (fun f : PoolFlow => if f.buy then f.recv else 0) m.pools
-
-/-- The conservation law of a match result (C05: base conserved, quote conserved up to the dust that goes to the
-dust collector): nothing is handed out that was not paid in. -/
-def MatchConserving (m : MatchIn) : Prop := outQ m ≤ inQ m ∧ outB m ≤ inB m
-
-instance (m : MatchIn) : Decidable (MatchConserving m) := by unfold MatchConserving; infer_instance
-
-def OpConserving : Op → Prop
-  | .endBlock _ ms _ _ => ∀ m ∈ ms, MatchConserving m
-  | _ => True
-
 theorem sumOver_side {α : Type} (buyOf : α → Bool) (amt : α → Nat) (X Y d : Denom) (l : List α) :
     sumOver (fun x => if (if buyOf x then X else Y) = d then amt x else 0) l =
       (if X = d then sumOver (fun x => if buyOf x then amt x else 0) l else 0) +
